@@ -49,4 +49,5 @@ class C11(Prop):
 
 
 import sessmix
-PROP = sessmix.attach(C11(), sessmix.c11_cases, sessmix.c11_oracle, 120, 3000)
+PROP = sessmix.attach(C11(), sessmix.c11_cases, sessmix.c11_oracle, 120, 3000,
+                      extra_targets=["Outstation/SessionC11Proofs.vo"])
